@@ -152,11 +152,6 @@ Lemma flags_run_phase p p' k : pclass_of p = KRun -> pclass_of p' = KRun ->
   flags_ok (pclass_of p) k = true -> flags_ok (pclass_of p') k = true.
 Proof. intros -> ->. auto. Qed.
 
-Lemma flags_term m k b : flags_ok KRun k = true ->
-  (processed k = false -> b = true) -> in_procs m k = b \/ True ->
-  flags_ok KGrace (term_kid m k) = true \/ in_procs m k <> b.
-Proof. Abort.
-
 Lemma flags_term k m : flags_ok KRun k = true -> (processed k = false -> in_procs m k = true) ->
   flags_ok KGrace (term_kid m k) = true.
 Proof.
@@ -213,10 +208,6 @@ Proof. unfold next_init. destruct (Nat.ltb k (G c)); [reflexivity|]. destruct (h
 
 Lemma after_rec_run c o n : pclass_of (after_rec_hook c o n) = KRun.
 Proof. unfold after_rec_hook. destruct (hook_recover c); reflexivity. Qed.
-
-Lemma next_init_phase_ok c k : (k <= G c)%nat -> (k < G c -> True)%nat ->
-  phase_ok c (next_init c k) k \/ (k > G c)%nat.
-Proof. Abort.
 
 Lemma next_init_ok c k : (k <= G c)%nat -> phase_ok c (next_init c k) k.
 Proof.
@@ -545,7 +536,7 @@ Lemma no_kill_before_grace c s : reach c s ->
 Proof.
   intros Hr. apply reach_inv in Hr as [[_ _ H3 _] _ _].
   destruct (ph s) eqn:Hph; auto; (eapply Forall_impl; [|exact H3]); intros kk [Hf _]; cbn in Hf;
-    (apply (flags_nokill KRun kk); auto) || (apply (flags_nokill KGrace kk); auto).
+    first [solve [apply (flags_nokill KRun kk); auto] | solve [apply (flags_nokill KGrace kk); auto]].
 Qed.
 
 (* progress: after the grace timer nobody that is still alive has been spared *)
@@ -709,6 +700,28 @@ Proof.
   intros HT Hf Hrun Hp. pose proof (run_counts _ _ _ _ Hrun) as Hc. cbn in Hc.
   assert (reach c s) as Hr by (eapply run_reach; eauto; constructor).
   destruct (over_recovery_state c s e Hr Hp) as [H1 H2]. unfold over_recovery_ok. rewrite <- Hc.
-  destruct e; cbn; try (destruct H2 as [H2|H2]; [discriminate| |]; lia); try (specialize (H2 ltac:(discriminate)); lia).
-  destruct H1 as [H1 _]; auto. lia.
+  assert (exited s = count_recv tr) as Hx by lia. rewrite <- Hx in *.
+  destruct e; cbn [err_eqb Bool.eqb];
+    try (assert (exited s = 0 \/ exited s <= T c) as H3 by (apply H2; discriminate);
+         destruct (exited s >? T c) eqn:E; [exfalso; lia|reflexivity]).
+  destruct H1 as [H1 _]; auto. destruct (exited s >? T c) eqn:E; [reflexivity|exfalso; lia].
+Qed.
+
+(* every started child has a record: kids grows by one per started command and never shrinks *)
+Fixpoint count_started (tr : list event) : nat :=
+  match tr with
+  | [] => 0
+  | ESpawn (PStarted _) :: r => S (count_started r)
+  | _ :: r => count_started r
+  end.
+
+Lemma run_started c tr : forall s s', run c s tr = Some s' ->
+  length (kids s') = (length (kids s) + count_started tr)%nat.
+Proof.
+  induction tr as [|e tr IH]; cbn [run]; intros s s' Hrun.
+  - injection Hrun as <-. cbn. lia.
+  - destruct (step c s e) as [s1|] eqn:Hst; [|discriminate].
+    pose proof (step_shape _ _ _ _ Hst) as Hsh. rewrite (IH _ _ Hrun).
+    unfold same_counts in Hsh.
+    destruct e as [[pid| | |]| | | | | | | | |]; cbn [count_started]; try lia; intuition lia.
 Qed.
